@@ -5,6 +5,7 @@ from contracts import c18_medium_prop as CPROP
 from contracts import c18_asmedium as CAM
 from contracts import c18_minmedium as CMM
 from contracts import c18_boundary as CB
+from contracts import w_reaction_sides as WRS
 from pyvc.contract import chain_hooks
 from props._generic import run_property, replay_with_driver
 
@@ -18,9 +19,15 @@ BOUNDARY_KEYS = [CB.IBT, CB.FBT]
 
 def run(rep):
     run_property(rep, KEYS, hooks=chain_hooks(CPROP.HOOKS, CMIP.HOOKS),
-                 more=[(AS_MEDIUM_KEYS, CAM.HOOKS), (MINIMAL_MEDIUM_KEYS, CMM.HOOKS), (BOUNDARY_KEYS, CB.HOOKS)],
+                 more=[(AS_MEDIUM_KEYS, CAM.HOOKS), (MINIMAL_MEDIUM_KEYS, CMM.HOOKS), (BOUNDARY_KEYS, CB.HOOKS),
+                       (["Reaction.reactants@getter:body", "Reaction.products@getter:body"], WRS.HOOKS)],
                  lemmas=lambda: C.lemmas() + CPROP.lemmas() + CMIP.lemmas() + CB.lemmas() + CMM.lemmas(),
                  explanation=(
+        "What the ghost flags has_reactants / has_products MEAN is proved on the real bodies of Reaction.reactants / Reaction.products "
+        "(materialised reaction, stoichiometry dictionary of any size): a new list of exactly the metabolites with coefficient < 0 "
+        "resp. > 0 (both inclusions, non-empty iff such a metabolite exists); for products under the stated precondition that no "
+        "metabolite is stored with coefficient 0 - the body keeps v >= 0 where the documentation says > 0 (finding: after r *= 0 "
+        "every metabolite is listed as a product). "
         "Deductive (kernel): the three nested accessor functions of Model.medium are proved over an abstract exchange "
         "(has_reactants, has_products, lb, ub): is_active, get_active_bound (import bound by the direction of writing) and "
         "set_active_bound (sets exactly the import-side bound, leaves the export bound and every other reaction untouched; raises "
@@ -100,7 +107,7 @@ def run(rep):
         "table by executing the lambda on an arbitrary member. Lemmas: for `exchange` the decision reads no bound (the exchange list "
         "is the same before and after a change of bounds); an accepted reaction is a boundary reaction unless it carries the SBO term "
         "- the single-metabolite assumption of the assumed exchange lists concerns annotated reactions only."),
-        trusted=["Reaction.reactants/products non-empty iff the reaction has negative/positive coefficients (assumed contracts)",
+        trusted=["the abstraction step only: the ghost flags has_reactants / has_products / n_reactants / n_products of a symbolic reaction stand for the lists proved in contracts/w_reaction_sides.py (Reaction.reactants/products themselves are no longer assumed)",
                  "find_boundary_types / model.exchanges (heuristics; assumed to return single-metabolite reactions of the model)",
                  "Model.medium getter / setter: model.exchanges (assumed contract find_boundary_types[medium]) is a list of elements of "
                  "model.reactions, each with exactly one non-empty side (Reaction.boundary), and a function of the model structure - no "
